@@ -20,7 +20,8 @@ function hook::run() {
 }
 
 function hook::_get_possible_handler_names() {
-  if [[ "$BINDING_CONTEXT_CURRENT_BINDING" == "onStartup" ]]; then
+  # onStartup context has no type. A binding of another type may be named "onStartup" too.
+  if [[ "$BINDING_CONTEXT_CURRENT_BINDING" == "onStartup" ]] && ! context::jq -e 'has("type")' >/dev/null; then
     echo __on_startup
   elif BINDING_CONTEXT_CURRENT_TYPE=$(context::jq -er '.type'); then
     case "${BINDING_CONTEXT_CURRENT_TYPE}" in
